@@ -9,14 +9,24 @@ Local Open Scope N_scope.
 Theorem registry_lossless_thm : Forall (fun e => lossless (e_schema e) = true) registry.
 Proof. apply Forall_forall. apply forallb_forall. vm_compute. reflexivity. Qed.
 
-(* FULL STATEMENT (proved for the registered classes; C09 as a whole is partial because the
-   registry does not yet contain every reachable class) *)
-Theorem all_classes_thm : forall e n, In e registry -> matches (e_schema e) n = true ->
-  exists v n', get (e_schema e) n = Some v /\ put (e_schema e) v = Some n' /\ neqv n' n.
+(* FULL STATEMENT (proved for the registered classes and every payload lens that is lossless on
+   its payload domain; "partial" = the registry is every reachable class except the two legacy
+   classes that cannot build or serialise an entity under the pinned interpreter, and the
+   documented domain excludes the open findings) *)
+Theorem all_classes_thm : forall PL, pl_lossless PL ->
+  forall e n, In e registry -> matches PL (e_schema e) [] n = true ->
+  exists v n', get PL (e_schema e) n = Some v /\ put PL (e_schema e) [] v = Some n' /\ neqv PL n' n.
 Proof.
-  intros e n Hin Hm. apply lens_get_put_thm; [|exact Hm].
+  intros PL HPL e n Hin Hm. apply lens_get_put_thm; [exact HPL| |exact Hm].
   pose proof registry_lossless_thm as H. rewrite Forall_forall in H. apply H. exact Hin.
 Qed.
+
+(* the classes without a payload rule need no assumption at all, and ~ is strict on data *)
+Theorem payload_free_classes_thm : forall e n, In e registry -> payload_free (e_schema e) = true ->
+  matches pl_id (e_schema e) [] n = true ->
+  exists v n', get pl_id (e_schema e) n = Some v /\ put pl_id (e_schema e) [] v = Some n' /\
+               neqv pl_id n' n.
+Proof. intros e n Hin _ Hm. exact (all_classes_thm pl_id pl_id_lossless e n Hin Hm). Qed.
 
 (* non-vacuity: the registry is not empty and a documented example matches its schema *)
 Definition ex_receipt : node :=
@@ -28,31 +38,59 @@ Definition ex_receipt : node :=
              [Node (s "item") [(s "id", AStr (s "1431364572-189"))] None [];
               Node (s "item") [(s "id", AStr (s "1431364575-190"))] None []]].
 
-Example nonvacuous : (60 <=? N.of_nat (length registry)) = true /\
-  matches schema_IncomingReceipt ex_receipt = true /\
-  match get schema_IncomingReceipt ex_receipt with
-  | Some v => match put schema_IncomingReceipt v with Some n' => codec_wf n' | None => false end
-  | None => false end = true.
+(* a text message with a (here: ideal-lens) payload, and a retry receipt whose <retry> repeats
+   the receipt id *)
+Definition ex_message : node :=
+  Node (s "message")
+       [(s "t", AStr (s "1431204094")); (s "from", AStr (s "4915212345678@s.whatsapp.net"));
+        (s "type", AStr (s "text")); (s "id", AStr (s "1431204051-9")); (s "offline", AStr (s "0"));
+        (s "notify", AStr (s "peer"))]
+       None [Node (s "proto") [] (Some [10; 2; 104; 105]) []].
+Definition ex_retry (rid : str) : node :=
+  Node (s "receipt")
+       [(s "id", AStr (s "1415389947-12")); (s "from", AStr (s "49@s.whatsapp.net"));
+        (s "t", AStr (s "1432833777")); (s "type", AStr (s "retry"))]
+       None
+       [Node (s "retry") [(s "count", AStr (s "1")); (s "id", AStr rid); (s "v", AStr (s "1"));
+                          (s "t", AStr (s "1432833266"))] None [];
+        Node (s "registration") [] (Some [122; 156; 236; 75]) []].
+
+Definition rt_wf (sc : schema) (n : node) : bool :=
+  match get pl_id sc n with
+  | Some v => match put pl_id sc [] v with Some n' => codec_wf n' | None => false end
+  | None => false
+  end.
+
+Example nonvacuous : (130 <=? N.of_nat (length registry)) = true /\
+  matches pl_id schema_IncomingReceipt [] ex_receipt = true /\
+  rt_wf schema_IncomingReceipt ex_receipt = true /\
+  matches pl_id (msg_in ty_text proto_text) [] ex_message = true /\
+  rt_wf (msg_in ty_text proto_text) ex_message = true /\
+  matches pl_id schema_RetryIncomingReceipt [] (ex_retry (s "1415389947-12")) = true /\
+  rt_wf schema_RetryIncomingReceipt (ex_retry (s "1415389947-12")) = true /\
+  (* the cross-field constraint is part of the documented shape *)
+  matches pl_id schema_RetryIncomingReceipt [] (ex_retry (s "another-id")) = false.
 Proof. vm_compute. repeat split. Qed.
 
 (* every registered schema passes the computed codec-safety check, so put_wf_thm applies *)
 Theorem registry_codec_safe_thm : Forall (fun e => codec_safe (e_schema e) = true) registry.
 Proof. apply Forall_forall. apply forallb_forall. vm_compute. reflexivity. Qed.
 
-Theorem all_classes_put_wf_thm : forall e v n, In e registry ->
-  val_wf (e_schema e) v = true -> put (e_schema e) v = Some n -> codec_wf n = true.
+Theorem all_classes_put_wf_thm : forall PL e v n, In e registry ->
+  val_wf PL (e_schema e) v = true -> put PL (e_schema e) [] v = Some n -> codec_wf n = true.
 Proof.
-  intros e v n Hin Hw Hp. apply (put_wf_thm (e_schema e) v n); auto.
+  intros PL e v n Hin Hw Hp. apply (put_wf_thm PL (e_schema e) v n); auto.
   pose proof registry_codec_safe_thm as H. rewrite Forall_forall in H. apply H. exact Hin.
 Qed.
 
 (* ------------------------------------------------------------------ refutations *)
 (* the class accepts the documented stanza n, builds an entity, serialises it again without
    raising, and what comes out is NOT n (not even up to number normalisation) *)
+(* stated with the ideal payload lens: not even with a perfect payload converter *)
 Definition refutes (sc : schema) (n : node) : Prop :=
-  matches sc n = true /\
-  (exists v n', get sc n = Some v /\ put sc v = Some n') /\
-  forall v n', get sc n = Some v -> put sc v = Some n' -> ~ neqv n' n.
+  matches pl_id sc [] n = true /\
+  (exists v n', get pl_id sc n = Some v /\ put pl_id sc [] v = Some n') /\
+  forall v n', get pl_id sc n = Some v -> put pl_id sc [] v = Some n' -> ~ neqv pl_id n' n.
 
 Lemma Forall2_hd {A B} (R : A -> B -> Prop) x l y l' : Forall2 R (x :: l) (y :: l') -> R x y.
 Proof. intros H. inversion H. assumption. Qed.
@@ -62,8 +100,8 @@ Ltac refute_start :=
   let v := fresh "v" in let n' := fresh "n'" in let Hg := fresh "Hg" in let Hp := fresh "Hp" in
   intros v n' Hg Hp; vm_compute in Hg; apply Some_inj in Hg; subst v;
   vm_compute in Hp; apply Some_inj in Hp; subst n'; intros Hn.
-Ltac kid0 H := apply neqv_kids in H; cbn [node_kids] in H; apply Forall2_hd in H.
-Ltac attr_differs H key := apply (neqv_attr _ _ key) in H; vm_compute in H; discriminate H.
+Ltac kid0 H := apply (neqv_kids pl_id) in H; cbn [node_kids] in H; apply Forall2_hd in H.
+Ltac attr_differs H key := apply (neqv_attr pl_id _ _ key) in H; vm_compute in H; discriminate H.
 
 Definition a (k v : string) : str * aval := (s k, AStr (s v)).
 Definition iq_hdr := [a "id" "1"; a "type" "result"; a "from" "s.whatsapp.net"].
@@ -83,6 +121,26 @@ Definition wit_RemoveGroups :=
        [Node (s "remove") [a "subject" "x"] None [Node (s "participant") [a "jid" "50@s.whatsapp.net"] None []]].
 Lemma RemoveGroupsNotification_mode_refuted : refutes schema_RemoveGroupsNotification_mode wit_RemoveGroups.
 Proof. refute_start. attr_differs Hn (s "mode"). Qed.
+
+(* open finding: an incoming message that carries no offline attribute comes back with
+   offline="0" (MessageMetaAttributes turns the absent value into False) *)
+Definition msg_hdr := [a "type" "text"; a "id" "1431204051-9"; a "from" "49@s.whatsapp.net"; a "t" "1431204094"].
+Definition wit_Message_offline := Node (s "message") msg_hdr None [].
+Lemma Message_offline_refuted : refutes (msg_in_offline_wide ty_any KNil) wit_Message_offline.
+Proof. refute_start. attr_differs Hn (s "offline"). Qed.
+
+(* open finding: retry="0" is dropped (int 0 is falsy on both sides) *)
+Definition wit_Message_retry0 := Node (s "message") (msg_hdr ++ [a "offline" "0"; a "retry" "0"]) None [].
+Lemma Message_retry0_refuted : refutes (msg_in_retry_wide ty_any KNil) wit_Message_retry0.
+Proof. refute_start. attr_differs Hn (s "retry"). Qed.
+
+(* the same witnesses with the attribute in its documented domain are accepted by the
+   registered schema *)
+Example message_domain_witnesses :
+  matches pl_id (msg_in ty_any KNil) [] (Node (s "message") (msg_hdr ++ [a "offline" "0"; a "retry" "1"]) None []) = true /\
+  matches pl_id (msg_in ty_any KNil) [] wit_Message_offline = false /\
+  matches pl_id (msg_in ty_any KNil) [] wit_Message_retry0 = false.
+Proof. vm_compute. repeat split. Qed.
 
 (* fixed by fixes/C09-notification-optional-attrs.patch: offline="0" appears from nowhere *)
 Definition wit_Notification :=
@@ -140,9 +198,9 @@ Qed.
 (* the repaired schemas accept the same witnesses and are lossless on them (they are in the
    registry): the refutations above are about the pre-fix code only *)
 Example repaired_accept_witnesses :
-  matches schema_Notification wit_Notification = true /\
-  matches schema_AccountIb wit_AccountIb = true /\
-  matches schema_InfoGroupsResultIq wit_InfoGroupsResult = true /\
-  matches schema_CreateGroupsNotification wit_CreateGroups = true /\
-  matches (schema_ResultSyncIq last_fixed) (wit_sync [a "version" "1"] []) = true.
+  matches pl_id schema_Notification [] wit_Notification = true /\
+  matches pl_id schema_AccountIb [] wit_AccountIb = true /\
+  matches pl_id schema_InfoGroupsResultIq [] wit_InfoGroupsResult = true /\
+  matches pl_id schema_CreateGroupsNotification [] wit_CreateGroups = true /\
+  matches pl_id (schema_ResultSyncIq last_fixed) [] (wit_sync [a "version" "1"] []) = true.
 Proof. vm_compute. repeat split. Qed.
